@@ -42,8 +42,22 @@ func c01r9(p *model.Prog, r *report.Result) {
 			arg := c.Args[len(c.Args)-1]
 			fresh := false
 			if in, ok := arg.(ssa.Instruction); ok && inner.Body[in.Block()] {
-				if _, isMake := arg.(*ssa.MakeSlice); isMake {
+				switch x := arg.(type) {
+				case *ssa.MakeSlice:
 					fresh = true
+				case *ssa.Call:
+					// append(net.Buffers(nil), bs...) / append([]..{}, bs...) also makes a private vector
+					if b, isB := x.Call.Value.(*ssa.Builtin); isB && b.Name() == "append" {
+						base := model.Unwrap(x.Call.Args[0])
+						if model.IsNilConst(base) {
+							fresh = true
+						}
+						if sl, isSl := base.(*ssa.Slice); isSl {
+							if a, isA := sl.X.(*ssa.Alloc); isA && inner.Body[a.Block()] {
+								fresh = true
+							}
+						}
+					}
 				}
 			}
 			r.Check(fresh, "C01.R9", fkey(fn, "writev", "per-session-vector"), p.InstrPos(ci), "vector made inside the iteration", "the same net.Buffers vector is handed to Writev for every session of the loop: the first session's write consumes it (sent entries become nil), the other sessions skip that data - whole batches of messages are missing for them")
